@@ -78,6 +78,7 @@ type genCtx struct {
 	allow   func(k string) bool
 	depth   int
 	classes []string // the struct is meant to be derivable for these classes
+	embOK   bool     // embedded ZzEmb fields are fine although allow restricts the kinds (JSON shapes)
 }
 
 // supports: the type (and all its components) is supported for the class.
@@ -124,6 +125,11 @@ func (s *Struct) HasDerive(class string) bool {
 }
 
 func jsonFaithful(t *Ty, st *Struct) bool {
+	if t.K == "emb" {
+		// an embedded ZzEmb{Y int} / *ZzEmb comes back exactly (seed C15-7: an embedded struct with exactly one field dropped from
+		// AsMutable / AsImmutable); the empty embedded structs are not applicable fields and never get here
+		return strings.TrimPrefix(t.Name, "*") == "ZzEmb"
+	}
 	if !jsonKinds[t.K] {
 		return false
 	}
@@ -348,7 +354,7 @@ func (c *genCtx) fields(n int, onlyPrivate bool, onlyPublic bool) {
 			}
 		default:
 			// embedded field (only when nothing restricts the field kinds)
-			if c.allow != nil || len(c.classes) > 0 {
+			if (c.allow != nil && !c.embOK) || len(c.classes) > 0 {
 				f.Name = c.freshName(used, fieldNames, "f")
 				f.Ty = c.ty()
 				break
@@ -495,6 +501,7 @@ func GenStruct(r *Rng, pkg *Package, name string) *Struct {
 		st.Ann.Json = true
 		if r.Intn(5) > 0 {
 			c.allow = func(k string) bool { return jsonKinds[k] && k != "tparam" }
+			c.embOK = true
 		}
 		c.fields(nFields(r), false, false)
 	case "derive":
